@@ -132,6 +132,21 @@ def extract_flags(repo: Path) -> dict:
                                  + ast.unparse(after[0])[:120] if after else 'missing')
         if flags.setdefault('shift_whole_vector', kind) != kind:
             raise Untranslatable('model.py: the two fuel-dependent drivers install the initial mass differently')
+    # piston fuel flow: C_f1 as it is (kg/min, as coded before FC19b) or converted to kg/s
+    forms = {'calculate_nominal_fuel_flow': {'self.aircraft_parameters.c_f1': False,
+                                             'self.aircraft_parameters.c_f1 / 60': True},
+             'calculate_cruise_fuel_flow': {'self.aircraft_parameters.c_f1 * self.aircraft_parameters.c_fcr': False,
+                                            'self.aircraft_parameters.c_f1 / 60 * self.aircraft_parameters.c_fcr': True}}
+    kinds = set()
+    for meth, table in forms.items():
+        body = strip_doc(find_function(mod, meth, cls='Bada3PistonEngineModel').body)
+        if len(body) != 1 or not isinstance(body[0], ast.Return) or ast.unparse(body[0].value) not in table:
+            raise Untranslatable(f'model.py:Bada3PistonEngineModel.{meth}: unrecognised form: '
+                                 + ast.unparse(body[-1])[:120])
+        kinds.add(table[ast.unparse(body[0].value)])
+    if len(kinds) != 1:
+        raise Untranslatable('model.py:Bada3PistonEngineModel: nominal and cruise flow use different units')
+    flags['piston_per_second'] = kinds.pop()
     return flags
 
 
@@ -212,6 +227,7 @@ def extract_c19(repo: Path) -> tuple[str, dict]:
             + '\n\n'.join(m.defs) + '\n\n'
             f'Definition backward_dx_reversed : bool := {"true" if flags["backward_dx_reversed"] else "false"}.\n'
             f'Definition shift_whole_vector : bool := {"true" if flags["shift_whole_vector"] else "false"}.\n'
+            f'Definition piston_per_second : bool := {"true" if flags["piston_per_second"] else "false"}.\n'
             'End Gen.\n')
     return text, flags
 
